@@ -67,6 +67,9 @@ def exhaustive_part(v, universe, invariants, gens, owned, max_judge=400, always_
             names_list.append((m, set(names) | {c for c in m["clauses"] if c in PY_CLAUSES}))
     for m in mism:
         if "ctor_error" in m["clauses"]:
+            if "ctor_error" not in owned:
+                raise common.MachineryFailure("constructing / projecting a packet raised in the harness: %s (K=%s)" % (
+                    m["obs"].get("ctor_error"), json.dumps(m["obs"]["K"])[:300]))
             names_list.append((m, {"ctor_error"}))
     drift = {}
     for m, names in names_list:
